@@ -195,11 +195,11 @@ theorem user_ok (a : AOpt) (hwf : a.wf = true) : OptOK a.user := by
     split
     · decide
     · exact canonNum_isArg (by simpa [AOpt.wf] using hwf)
-  | setMark hex x v =>
+  | setMark hex mask x v =>
     simp only [AOpt.wf, Bool.and_eq_true] at hwf
     cases x
-    · exact optOK_mk _ _ _ (by decide) (plainTok_isArg hwf.1.1.1.1)
-    · exact optOK_mk _ _ _ (by decide) (plainTok_isArg hwf.1.1.1.1)
+    · exact optOK_mk _ _ _ (by decide) (plainTok_isArg hwf.1.1.1.1.1)
+    · exact optOK_mk _ _ _ (by decide) (plainTok_isArg hwf.1.1.1.1.1)
   | toSource ip => exact optOK_mk _ _ _ (by decide) (plainTok_isArg (ipTok_plain (by simpa [AOpt.wf] using hwf)))
 
 /-- So is the kernel's spelling. -/
@@ -235,7 +235,7 @@ theorem kernel_ok (cfg : KCfg) (a : AOpt) (hwf : a.wf = true) : OptOK (a.kernel 
   | jump t => exact optOK_mk _ _ _ (by decide) (plainTok_isArg (by simpa [AOpt.wf] using hwf))
   | goto t => exact optOK_mk _ _ _ (by decide) (plainTok_isArg (by simpa [AOpt.wf] using hwf))
   | logLevel lvl d => exact optOK_mk _ _ _ (by decide) (canonNum_isArg (by simpa [AOpt.wf] using hwf))
-  | setMark hex x v =>
+  | setMark hex mask x v =>
     exact optOK_mk _ _ _ (by decide) (isArg_of_head (c := '0') (by simp [s]) (by decide) (by decide))
   | toSource ip => exact optOK_mk _ _ _ (by decide) (plainTok_isArg (ipTok_plain (by simpa [AOpt.wf] using hwf)))
 
